@@ -32,30 +32,41 @@ try:
     def sh(cmd, cwd=wt, timeout=1800):
         p = subprocess.run(cmd, cwd=cwd, env=ENV, shell=isinstance(cmd, str), stdout=subprocess.PIPE, stderr=subprocess.STDOUT, text=True, timeout=timeout)
         return p.returncode, p.stdout
+    FAST = os.environ.get('MUT_FAST') == '1' and os.path.exists(os.path.join(V, 'seeded', sid, 'meta.json'))
+    if FAST:
+        # regression run of a kept change: validity (applies, builds, baseline, demonstration) was established when it was kept;
+        # only the checks are re-run
+        oldm = json.load(open(os.path.join(V, 'seeded', sid, 'meta.json')))
+        for k in ('demo_passes_without_patch', 'builds', 'build_output', 'baseline_passes', 'baseline_output', 'demo_fails_with_patch', 'demo_output_with_patch'):
+            if k in oldm:
+                meta[k] = oldm[k]
     # demo passes on the unchanged tree
     shutil.copy(os.path.join(src, 'zz_demo_test.go'), demo_dst)
     pkg = './' + os.path.dirname(demo_rel)
-    rc0, o0 = sh(['go', 'test', '-vet=off', '-count=1', '-tags', '', pkg])
-    meta['demo_passes_without_patch'] = rc0 == 0
+    if not FAST:
+        rc0, o0 = sh(['go', 'test', '-vet=off', '-count=1', '-tags', '', pkg])
+        meta['demo_passes_without_patch'] = rc0 == 0
     os.remove(demo_dst)
     rc, o = sh(['git', 'apply', os.path.abspath(os.path.join(src, 'patch.diff'))])
     meta['patch_applies'] = rc == 0
     if rc != 0:
         print(o)
         raise SystemExit('patch does not apply')
-    rc, o = sh("go build ./... 2>&1 | grep -v gdbm | grep -v '^#' ; go build -tags verif ./... 2>&1 | grep -v gdbm | grep -v '^#'")
-    meta['builds'] = o.strip() == '' or 'error' not in o.lower()
-    meta['build_output'] = o[-500:]
-    rc, o = sh(['python3', os.path.join(V, 'tools', 'baseline.py'), '--repo', wt], cwd=V)
-    meta['baseline_passes'] = rc == 0
-    meta['baseline_output'] = o.strip().splitlines()[-1] if o.strip() else ''
-    shutil.copy(os.path.join(src, 'zz_demo_test.go'), demo_dst)
-    rc1, o1 = sh(['go', 'test', '-vet=off', '-count=1', pkg])
-    meta['demo_fails_with_patch'] = rc1 != 0
-    meta['demo_output_with_patch'] = o1[-800:]
-    os.remove(demo_dst)
-    print('mutant %s: applies=%s builds=%s baseline=%s demo: fails-with=%s passes-without=%s' % (
-        sid, meta['patch_applies'], meta['builds'], meta['baseline_passes'], meta['demo_fails_with_patch'], meta['demo_passes_without_patch']))
+    if not FAST:
+        rc, o = sh("go build ./... 2>&1 | grep -v gdbm | grep -v '^#' ; go build -tags verif ./... 2>&1 | grep -v gdbm | grep -v '^#'")
+        meta['builds'] = o.strip() == '' or 'error' not in o.lower()
+        meta['build_output'] = o[-500:]
+        rc, o = sh(['python3', os.path.join(V, 'tools', 'baseline.py'), '--repo', wt], cwd=V)
+        meta['baseline_passes'] = rc == 0
+        meta['baseline_output'] = o.strip().splitlines()[-1] if o.strip() else ''
+        shutil.copy(os.path.join(src, 'zz_demo_test.go'), demo_dst)
+        rc1, o1 = sh(['go', 'test', '-vet=off', '-count=1', pkg])
+        meta['demo_fails_with_patch'] = rc1 != 0
+        meta['demo_output_with_patch'] = o1[-800:]
+        os.remove(demo_dst)
+    print('mutant %s: applies=%s builds=%s baseline=%s demo: fails-with=%s passes-without=%s%s' % (
+        sid, meta['patch_applies'], meta.get('builds'), meta.get('baseline_passes'), meta.get('demo_fails_with_patch'), meta.get('demo_passes_without_patch'),
+        ' (validity as recorded; checks only)' if FAST else ''))
     for pid in pids:
         t0 = time.time()
         e = dict(ENV, VERIF_REPO=wt)
